@@ -142,7 +142,17 @@ def norm_auth(b):
 class Bus:
     def __init__(self, exe, cfg):
         self.cfg = cfg
-        self.d = Daemon(exe, auth="<auth>EXTERNAL</auth>", limits=limits_xml(cfg))
+        servicedirs = ""
+        self.svcdir = None
+        if cfg.get("services"):
+            # the two activatable services of Robust/Mini.v: one whose Exec fails after 300 ms, one that never claims its name
+            import tempfile
+            self.svcdir = tempfile.mkdtemp(prefix="verif_c10_svc_")
+            for name, ex in (("c10.act.fail", '/bin/sh -c "sleep 0.3; exit 1"'), ("c10.act.hang", "/bin/sleep 3")):
+                with open(os.path.join(self.svcdir, name + ".service"), "w") as f:
+                    f.write("[D-BUS Service]\nName=%s\nExec=%s\n" % (name, ex))
+            servicedirs = "<servicedir>%s</servicedir>" % self.svcdir
+        self.d = Daemon(exe, auth="<auth>EXTERNAL</auth>", limits=limits_xml(cfg), servicedirs=servicedirs)
         self.path = self.d.sock
         # the socket file appears at bind(), connections are possible after listen(): retry briefly
         t_end = time.time() + WAIT
@@ -238,6 +248,9 @@ class Bus:
             c.close()
         alive = self.d.alive()
         rc, err = self.d.stop()
+        if self.svcdir:
+            import shutil
+            shutil.rmtree(self.svcdir, ignore_errors=True)
         bad = [l for l in err.split("\n") if SAN_PAT.search(l)]
         return alive, rc, bad, err
 
@@ -332,7 +345,7 @@ def run_script(bus, script, groups, canaries, blast_spec=None, noread=(), strict
         elif kind == "S":
             time.sleep(ev[1] / 1000.0)
         # ---- what the model expects of this step
-        exp_events, reads, exp_noreply = [], set(), []
+        exp_events, reads, exp_noreply, exp_actfail, exp_actok = [], set(), [], [], []
         for tag, toks in grp:
             if tag[0] == "R":
                 reads.add(int(tag[1:]))
@@ -357,6 +370,10 @@ def run_script(bus, script, groups, canaries, blast_spec=None, noread=(), strict
                     exp_noreply.append((c, int(p[2])))
                 elif p[0] == "limit" and strict:
                     exp_events.append(("limit", int(p[2])))
+                elif p[0] == "actfail" and strict:
+                    exp_actfail.append((c, int(p[2])))
+                elif p[0] == "actok" and strict:
+                    exp_actok.append((c, int(p[2])))
                 elif p[0] == "gone":
                     gone_expected.add(c)
                     stats["gone"] += 1
@@ -365,7 +382,10 @@ def run_script(bus, script, groups, canaries, blast_spec=None, noread=(), strict
         for c in sorted(gone_expected):
             h = socks.get(c)
             if h is not None and not h.closed and not h.eof:
-                if not h.wait_eof(max(0.02, deadline - time.time())):
+                t_w = time.time()
+                got_eof = h.wait_eof(max(0.02, deadline - time.time()))
+                stats["eof_wait_max"] = max(stats.get("eof_wait_max", 0.0), time.time() - t_w)
+                if not got_eof:
                     problem("violation" if kind != "S" else "late",
                             "%s: the model disconnects connection %d here (invalid stream / handshake failure / policy / expiry) but its socket saw no EOF within %.0f s" % (where, c, WAIT))
         for c in sorted(reads - gone_expected):
@@ -380,13 +400,17 @@ def run_script(bus, script, groups, canaries, blast_spec=None, noread=(), strict
         if lat > LAT_BOUND:
             problem("violation", "%s: bystander round trip took %.3f s (bound %.1f s)" % (where, lat, LAT_BOUND))
         # ---- what the monitor was shown
-        got_events, got_noreply = [], []
+        got_events, got_noreply, got_actfail, got_ureturns = [], [], [], []
         def ident(n):
             return 0 if n == "" else {v: k for k, v in names.items()}.get(n, -1)
         for m in mon:
             snd = m.fields.get(F_SENDER)
             if snd == DRIVER:
-                if strict and m.mtype == ERROR and m.fields.get(4) == "org.freedesktop.DBus.Error.LimitsExceeded":
+                if strict and m.mtype == ERROR and (str(m.fields.get(4)).startswith("org.freedesktop.DBus.Error.Spawn.") or m.fields.get(4) == "org.freedesktop.DBus.Error.TimedOut"):
+                    got_actfail.append((m.fields.get(F_DESTINATION), m.fields.get(F_REPLY_SERIAL)))
+                elif strict and m.mtype == METHOD_RETURN and m.sig == "u":
+                    got_ureturns.append((m.fields.get(F_DESTINATION), m.fields.get(F_REPLY_SERIAL)))
+                elif strict and m.mtype == ERROR and m.fields.get(4) == "org.freedesktop.DBus.Error.LimitsExceeded":
                     got_events.append(("limit", m.fields.get(F_REPLY_SERIAL)))
                 elif strict and m.mtype == ERROR and m.fields.get(4) == "org.freedesktop.DBus.Error.NoReply":
                     got_noreply.append((m.fields.get(F_DESTINATION), m.fields.get(F_REPLY_SERIAL)))
@@ -433,6 +457,15 @@ def run_script(bus, script, groups, canaries, blast_spec=None, noread=(), strict
             problem("violation",
                     "%s: NoReply errors sent by the bus (caller connection, serial) %s, the model says %s (a NoReply for a connection that is gone, or for a call that is not outstanding, must never be sent)"
                     % (where, sorted(got_noreply), sorted(exp_noreply)))
+        if strict:
+            got_actfail = [(ident(d), sr) for d, sr in got_actfail]
+            if sorted(got_actfail) != sorted(exp_actfail):
+                problem("violation", "%s: activation failures reported by the bus (requester, serial) %s, the model says %s (exactly the requesters that are still connected must be told)"
+                        % (where, sorted(got_actfail), sorted(exp_actfail)))
+            got_ureturns = [(ident(d), sr) for d, sr in got_ureturns]
+            missing = [e for e in exp_actok if e not in got_ureturns]
+            if missing:
+                problem("violation", "%s: StartServiceByName not answered although the service has appeared: %s" % (where, missing))
         # ---- canaries
         for m in mon + by:
             raw = getattr(m, "raw", b"")
